@@ -465,9 +465,13 @@ async fn child_drive(spec: &ChildSpec) -> ChildObs {
         let mut addr = None;
         for _ in 0..24000 {
             if let Ok(t) = std::fs::read_to_string(&stderr_path) {
-                if let Some(l) = t.lines().find_map(|l| l.strip_prefix("ripd listening on ")) {
-                    addr = Some(l.trim().to_string());
-                    break;
+                // stderr is unbuffered and eprintln! writes its pieces separately: only complete lines count
+                let complete = t.rfind('\n').map(|p| &t[..p]).unwrap_or("");
+                if let Some(l) = complete.lines().find_map(|l| l.strip_prefix("ripd listening on ")) {
+                    if l.trim().starts_with("http://") {
+                        addr = Some(l.trim().to_string());
+                        break;
+                    }
                 }
             }
             if let Some(Ok(Some(st))) = authority.as_mut().map(|c| c.try_wait()) {
@@ -915,9 +919,12 @@ fn canon(bytes: &[u8], r: &RunOut) -> Vec<u8> {
 fn canon_files(r: &RunOut) -> Vec<(String, Vec<u8>)> {
     // `*.bin` sidecars are open-addressing hash tables keyed by random uuids: slot positions are
     // run-specific, so only their size takes part in the differential (they ARE canary-searched)
+    // the authority lock directory (data/authority: lock + meta.json of the real `ripd` process) exists or not
+    // depending on how the process went down (graceful stop removes it): canary-searched, not diffed
     let mut v: Vec<(String, Vec<u8>)> = r
         .files
         .iter()
+        .filter(|(p, _)| !p.starts_with("data/authority/"))
         .map(|(p, b)| {
             let content = if p.ends_with(".bin") { format!("<BIN len={}>", b.len()).into_bytes() } else { canon(b, r) };
             (String::from_utf8_lossy(&canon(p.as_bytes(), r)).to_string(), content)
